@@ -206,16 +206,18 @@ def write_evidence(pid, tier, seed, mod, results, wall, n_viol, known_lines, pro
         "rule": "one evaluation = one feasible execution path of the real code under symbolic inputs (a path "
                 "condition over the solver variables); paths are distinct by construction (they differ in at least one "
                 "branch decision) and non-trivial when at least one assertion of the oracle was evaluated on them with "
-                "a satisfiable path condition. Each path stands for every input value satisfying its condition; the "
-                "assertion is discharged by an unsat answer to (path condition AND NOT assertion).",
+                "a satisfiable path condition. Each path stands for every input value satisfying its condition; an "
+                "assertion is discharged either because z3's simplifier reduces it to true (both sides are the same term over the "
+                "symbolic inputs) or by an unsat answer to (path condition AND NOT assertion).",
         "samples": samples or [{"note": "no completed path"}],
         "obligations": len(decided),
         "discharged": sum(1 for r in decided if r["verdict"] == "discharged"),
         "explanation": getattr(mod, "EXPLANATION", ""),
         "solver_queries": sum(r["solver_queries"] for r in results),
         "solver_s": round(sum(r["solver_s"] for r in results), 2),
-        "assertions_checked": sum(r["assertions_checked"] for r in results),
+        "assertions_checked": sum(r["assertions_checked"] + r["assertions_trivially_true"] for r in results),
         "assertions_discharged_unsat": sum(r["assertions_discharged"] for r in results),
+        "assertions_discharged_by_term_identity": sum(r["assertions_trivially_true"] for r in results),
         "functions_encoded": funcs,
         "source_sha256": sources,
         "per_obligation": results,
